@@ -629,16 +629,9 @@ Proof.
   intros post o. induction o as [|x o IH]; intros m err; cbn [fold_left]; [reflexivity|].
   destruct (c02_obs post (m, err) x) as [m1 e1] eqn:E. rewrite IH. pose proof (c02_obs_learners post m err x) as H. rewrite E in H. exact H.
 Qed.
-Lemma retry_fold_learners : forall cfg post e o m0 m3, m_learners (fst (retry_fold cfg post e o m0 m3)) = m_learners m3.
-Proof.
-  intros cfg post e o m0 m3. unfold retry_fold. cbv zeta.
-  match goal with |- m_learners (fst (fold_left ?g o ?a)) = _ => apply (fold_left_pres (fun acc => m_learners (fst acc) = m_learners m3) g o) end; [|reflexivity].
-  intros [m err] x H. cbn [fst] in *. destruct x; try exact H. destruct d; try exact H.
-  destruct (find _ _) as [[c' w]|]; [|exact H]. destruct (find_dworker _ _ _) as [k|]; [|exact H]. destruct (dw_task k); exact H.
-Qed.
 Lemma pm_final_learners : forall cfg pre d e o m,
   m_learners (pm_final cfg pre d e o m) = fst (fold_left c07_ghost o (sel_learners e o (m_learners m), ""%string)).
-Proof. intros cfg pre d e o m. unfold pm_final. rewrite retry_fold_learners. rewrite pm_clear_eq. cbn [m_learners set]. unfold pm3. rewrite c02_fold_learners. unfold pm2. cbn [m_learners set]. rewrite pm1_learners. reflexivity. Qed.
+Proof. intros cfg pre d e o m. destruct (pm_final_frame cfg pre d e o m) as [_ [_ [_ [E _]]]]. cbv zeta in E. rewrite E. unfold pm3. rewrite c02_fold_learners. unfold pm2. cbn [m_learners set]. rewrite pm1_learners. reflexivity. Qed.
 Lemma pc_learn_eq : forall e o m, pc_learn e o m = snd (fold_left c07_ghost o (sel_learners e o (m_learners m), ""%string)).
 Proof. intros e o m. unfold pc_learn. rewrite pm1_learners. reflexivity. Qed.
 
